@@ -227,6 +227,30 @@ int main(int argc, char **argv) {
                   J.attribute("size_bits", (int64_t)m->getSizeInBits());
                   J.attribute("idx", (int64_t)idx);
                   J.attribute("bitfield", m->isBitField());
+                  // members of an anonymous nested aggregate (no name to look it up by)
+                  const DIType *bt = m->getBaseType();
+                  while (bt) {
+                    auto *dt = dyn_cast<DIDerivedType>(bt);
+                    if (!dt || (dt->getTag() != dwarf::DW_TAG_typedef && dt->getTag() != dwarf::DW_TAG_const_type &&
+                                dt->getTag() != dwarf::DW_TAG_volatile_type)) break;
+                    bt = dt->getBaseType();
+                  }
+                  if (auto *sub = dyn_cast_or_null<DICompositeType>(bt)) {
+                    if (sub->getName().empty() && (sub->getTag() == dwarf::DW_TAG_structure_type || sub->getTag() == dwarf::DW_TAG_union_type)) {
+                      J.attributeArray("sub", [&] {
+                        for (auto *se : sub->getElements()) {
+                          auto *sm = dyn_cast<DIDerivedType>(se);
+                          if (!sm || sm->getTag() != dwarf::DW_TAG_member) continue;
+                          J.object([&] {
+                            J.attribute("name", sm->getName());
+                            J.attribute("off_bits", (int64_t)sm->getOffsetInBits());
+                            J.attribute("size_bits", (int64_t)sm->getSizeInBits());
+                            J.attribute("bitfield", sm->isBitField());
+                          });
+                        }
+                      });
+                    }
+                  }
                 });
               }
             });
